@@ -163,18 +163,20 @@ Qed.
 (* ---- C07: a dependant is cloned once per producer: distinct clones with different required states,
         and the source itself has no dependants ---- *)
 Theorem clones_ok_sound g i : clones_ok g = true -> i < length g -> gn_clones (gnd g i) <> [] ->
-  gn_children (gnd g i) = [] /\ NoDup (map (fun c => gn_name (gnd g c)) (gn_clones (gnd g i))) /\
+  (forall c objs, In (c, objs) (gn_children (gnd g i)) -> gn_clones (gnd g c) <> []) /\
+  NoDup (map (fun c => gn_name (gnd g c)) (gn_clones (gnd g i))) /\
   forall c1 c2, In c1 (gn_clones (gnd g i)) -> In c2 (gn_clones (gnd g i)) -> c1 <> c2 ->
                 seteqN (clone_states g c1) (clone_states g c2) = false.
 Proof.
   unfold clones_ok. rewrite forallb_forall. intros H Hi Hne. specialize (H i (proj2 (in_idxs g i) Hi)).
   destruct (gn_clones (gnd g i)) as [|c0 cl] eqn:E; [contradiction|].
   apply andb_true_iff in H. destruct H as [H H4]. apply andb_true_iff in H. destruct H as [H H3].
-  apply andb_true_iff in H. destruct H as [H1 _]. split; [destruct (gn_children (gnd g i)); [reflexivity | discriminate]|].
-  split; [now apply nodupN_sound|]. intros c1 c2 Hc1 Hc2 Hd. rewrite forallb_forall in H4. specialize (H4 c1 Hc1).
-  rewrite forallb_forall in H4. specialize (H4 c2 Hc2). apply orb_true_iff in H4. destruct H4 as [H4|H4].
-  - apply Nat.eqb_eq in H4. contradiction.
-  - now apply negb_true_iff in H4.
+  apply andb_true_iff in H. destruct H as [H1 _]. split.
+  - rewrite forallb_forall in H1. intros c objs Hc Hnil. specialize (H1 _ Hc). cbn in H1. rewrite Hnil in H1. discriminate.
+  - split; [now apply nodupN_sound|]. intros c1 c2 Hc1 Hc2 Hd. rewrite forallb_forall in H4. specialize (H4 c1 Hc1).
+    rewrite forallb_forall in H4. specialize (H4 c2 Hc2). apply orb_true_iff in H4. destruct H4 as [H4|H4].
+    + apply Nat.eqb_eq in H4. contradiction.
+    + now apply negb_true_iff in H4.
 Qed.
 
 (* ---- C09: links are symmetric, join equal forms of different workers, and share the registers ---- *)
